@@ -132,6 +132,8 @@ Slot(a) == IF CacheSlots = "per_alpha" THEN a ELSE "one"
 ReadSlot(a) == IF CacheRead = "requested" THEN Slot(a) ELSE Slot(Alphas[1])
 SlotNames == {"0.5", "0.7", "0.9", "one"}
 
+\* state at the top of the loop nest for request r (unprimed for Init, primed to start the next request)
+GroupsOf(r) == {r.aggs[i] : i \in DOMAIN r.aggs} \ {"unit"}
 LInitRest ==
   /\ pc = "upred" /\ ei = 1 /\ ai = 1 /\ gi = 1
   /\ gcache = [s \in SlotNames |-> NoWrite]
@@ -139,14 +141,25 @@ LInitRest ==
   /\ uiv = <<>>
   /\ frame = {}
   /\ unitData = <<>>
-  /\ estimates = [g \in RangeOf(Groups) |-> <<>>]
+  /\ estimates = [g \in GroupsOf(req) |-> <<>>]
   /\ cells = <<>>
   /\ tables = <<>>
+LStart(r) ==
+  /\ req' = r
+  /\ pc' = "upred" /\ ei' = 1 /\ ai' = 1 /\ gi' = 1
+  /\ gcache' = [s \in SlotNames |-> NoWrite]
+  /\ npLast' = NoWrite
+  /\ uiv' = <<>>
+  /\ frame' = {}
+  /\ unitData' = <<>>
+  /\ estimates' = [g \in GroupsOf(r) |-> <<>>]
+  /\ cells' = <<>>
+  /\ tables' = <<>>
 
 (* ---- the loop nest ---- *)
 \* which call comes next (the trace specification compares it with the recorded call)
 Cur == [op |-> pc,
-        e |-> IF pc \in {"final", "done"} THEN "-" ELSE E,
+        e |-> IF pc \in {"upred", "uint", "uadd", "apred", "aint", "aadd"} THEN E ELSE "-",
         a |-> IF pc \in {"uint", "aint"} THEN A ELSE "-",
         g |-> IF pc \in {"apred", "aint", "aadd"} THEN G ELSE "-"]
 
